@@ -6,7 +6,7 @@
 //!            7 / 8  residual oracle (real code only): x = dsolve / fdsolve (A, b, lsq), then
 //!                   M x - v through the real dmul21_/fdmul21_ (M, v = A, b or A^T A, A^T b);
 //!                   prints the residual entries, then the entries of v
-//!     kind : 0 f64 | 1 Dual | 2 Dual2 (encodings of numenc.rs)
+//!     kind : 0 f64 | 1 Dual | 2 Dual2 (encodings of numenc.rs) | 3 / 4 Number (each entry `number`-encoded; output as Dual2 / Dual)
 //!     lsq  : bit 0 = allow_lsq; bits 1.. = MEMORY LAYOUT in which the same matrix A is handed to the library:
 //!            0 row-major (C order), 1 column-major (Fortran order, contiguous), 2 every other column of a wider array
 //!            (strided, not contiguous), 3 a row-reversed view (negative stride)
@@ -14,13 +14,13 @@
 //!            followed, for kinds 1 and 2, by the marker -7 and per entry `nvars idx*` = the stored
 //!            variable order as indices into `names` (layout statistics only, never a verdict)
 use crate::cal::Rd;
-use crate::numenc::{read_dual, read_dual2, read_f, read_names};
+use crate::numenc::{read_dual, read_dual2, read_f, read_names, read_number};
 use crate::{f2i, guard, Ints};
 use ndarray::{s, Array1, Array2, ArrayView2, ShapeBuilder};
 use num_traits::identities::Zero;
 use num_traits::Signed;
 use rateslib::dual::linalg::{dmul21_, dmul22_, dsolve, fdmul21_, fdsolve};
-use rateslib::dual::{Dual, Dual2, Gradient1, Gradient2, Vars};
+use rateslib::dual::{Dual, Dual2, Gradient1, Gradient2, Number, Vars};
 use std::iter::Sum;
 use std::ops::{Div, Mul, Sub};
 
@@ -39,6 +39,13 @@ fn out_d2(names: &[String], x: &Dual2, out: &mut Ints) {
     out.extend(x.gradient1(names.to_vec()).iter().map(|g| f2i(*g)));
     out.extend(x.gradient2(names.to_vec()).iter().map(|g| f2i(*g)));
 }
+fn out_num(names: &[String], x: &Number, out: &mut Ints) {
+    out_d2(names, &Dual2::from(x.clone()), out)
+}
+fn out_num1(names: &[String], x: &Number, out: &mut Ints) {
+    out_d(names, &Dual::from(x.clone()), out)
+}
+fn lay_num(_names: &[String], _x: &Number, _out: &mut Ints) {}
 fn lay_f(_names: &[String], _x: &f64, _out: &mut Ints) {}
 fn lay_vars<'a, I: Iterator<Item = &'a String>>(names: &[String], it: I, out: &mut Ints) {
     let v: Vec<i128> = it
@@ -203,8 +210,19 @@ pub fn run(_op: &str, a: &Ints) -> Ints {
             Io::<Dual> { read: read_dual, write: out_d, layout: lay_d, has_layout: true },
             op, lsq, layout, &names, r, c, &mut rd,
         ),
-        _ => run_t(
+        2 => run_t(
             Io::<Dual2> { read: read_dual2, write: out_d2, layout: lay_d2, has_layout: true },
+            op, lsq, layout, &names, r, c, &mut rd,
+        ),
+        // kind 3: the generic solver instantiated at the CONTAINER type: every entry a Number (floats and dual numbers of ONE
+        // order mixed in one system); entries are encoded as numbers, results written like Dual2 results
+        3 => run_t(
+            Io::<Number> { read: read_number, write: out_num, layout: lay_num, has_layout: false },
+            op, lsq, layout, &names, r, c, &mut rd,
+        ),
+        // kind 4: as 3 for floats mixed with FIRST-order numbers; results written like Dual results
+        _ => run_t(
+            Io::<Number> { read: read_number, write: out_num1, layout: lay_num, has_layout: false },
             op, lsq, layout, &names, r, c, &mut rd,
         ),
     }
